@@ -300,7 +300,10 @@ def region_tokens(fn):
     names, aggregate/const variant names, statics.  Yields (token, line)."""
     for f in fn.region():
         b = f.body
+        live = b.live_blocks()
         for i, blk in enumerate(b.blocks):
+            if i not in live:
+                continue
             for s in blk["s"]:
                 if s["k"] != "assign" or is_foreign_exp(s.get("exp")):
                     continue
